@@ -399,6 +399,42 @@ pub fn run(cx: &mut Cx) {
                 Err(p) => cx.violation(&format!("C19/panic/{}", panic_site(&p)), format!("from_serialize with a {bk:?} key panicked: {p}"), json!({"key": format!("{bk:?}")})),
             }
         }
+        // ---- Context::from_serialize of a top-level map: each entry becomes the variable named by the key's text,
+        //      exactly as if it had been inserted under that name; a top level that is no map or struct is refused
+        macro_rules! top_map {
+            ($($k:ty),*) => {$({
+                let m: BTreeMap<$k, i32> = (0..rng.below(4)).map(|i| (<$k as Gen>::gen(rng, 3), i as i32)).collect();
+                let r = guard(|| {
+                    let a = Context::from_serialize(&m).map_err(|e| e.to_string())?;
+                    let mut b = Context::new();
+                    for (k, v) in &m {
+                        b.insert(k.to_string(), v);
+                    }
+                    let t = tera::Tera::default();
+                    let oa = t.render_str("{{ __tera_context }}", &a, false).map_err(|e| e.to_string())?;
+                    let ob = t.render_str("{{ __tera_context }}", &b, false).map_err(|e| e.to_string())?;
+                    Ok::<_, String>((oa, ob))
+                });
+                cx.evals(2);
+                cx.count("top_level_maps_compared", 1);
+                cx.cell(format!("from_serialize-top-map|{}", stringify!($k)));
+                match r {
+                    Ok(Ok((oa, ob))) if oa == ob => {}
+                    Ok(Ok((oa, ob))) => cx.violation(&format!("C19/from_serialize-differs-from-insert/BTreeMap<{}, i32>", stringify!($k)), format!("from_serialize of {m:?} gives the context {:?}, inserting the entries one by one {:?}", clip(&oa, 200), clip(&ob, 200)), json!({"map": format!("{m:?}")})),
+                    Ok(Err(e)) => cx.violation(&format!("C19/from_serialize-refuses-map/BTreeMap<{}, i32>", stringify!($k)), format!("from_serialize of {m:?} failed: {e}"), json!({"map": format!("{m:?}")})),
+                    Err(p) => cx.violation(&format!("C19/panic/{}", panic_site(&p)), format!("from_serialize of {m:?} panicked: {p}"), json!({"map": format!("{m:?}")})),
+                }
+            })*};
+        }
+        top_map!(i8, i64, i128, u8, u64, u128, bool, char, String);
+        for (what, r) in [("integer", guard(|| Context::from_serialize(&5i32).is_err())), ("sequence", guard(|| Context::from_serialize(&vec![1, 2]).is_err())), ("string", guard(|| Context::from_serialize("s").is_err())), ("unit", guard(|| Context::from_serialize(&()).is_err())), ("none", guard(|| Context::from_serialize(&None::<i32>).is_err()))] {
+            cx.eval();
+            match r {
+                Ok(true) => cx.count("non_map_top_levels_refused", 1),
+                Ok(false) => cx.violation(&format!("C19/from_serialize-accepts-non-map/{what}"), format!("Context::from_serialize accepted a top-level {what}"), json!({"top": what})),
+                Err(p) => cx.violation(&format!("C19/panic/{}", panic_site(&p)), format!("from_serialize of a {what} panicked: {p}"), json!({"top": what})),
+            }
+        }
         if cx.samples.len() < cx.max_samples {
             let d = Deep::gen(rng, 1);
             let printed = to_model(&d).map(|m| model::print(&m)).unwrap_or_default();
